@@ -97,6 +97,8 @@ def regen_api(src, mode):
 
 def oracle_case(case):
     """failure dict or None"""
+    if case.get('via') == 'effect':
+        return oracle_effect(case)
     src, mode, via = case['src'], case['mode'], case.get('via', 'raw')
     try:
         if via == 'api':
@@ -120,6 +122,124 @@ def oracle_case(case):
         return {'case': case, 'what': 'regenerated source has the abstract syntax of the original (%s path)' % via,
                 'expected': want[:1500], 'observed': got[:1500], 'regenerated': code[:600]}
     return None
+
+
+# -- execution effect of code blocks: Suite(src).execute(data) against CPython's exec(src)
+
+def _canon_ns(ns):
+    from harness.props import c03
+    out = {}
+    for k in sorted(ns):
+        if k == '__builtins__':
+            continue
+        v = ns[k]
+        if type(v).__name__ == 'module':
+            out[k] = ['module', v.__name__]
+        else:
+            out[k] = c03.canon(v)
+    return out
+
+
+class _Timeout(BaseException):
+    pass
+
+
+def _with_alarm(fn, seconds=10):
+    """safety net against a non-terminating generated program (they are bounded by construction): the
+    case is then skipped, never judged"""
+    import signal
+
+    def handler(signum, frame):
+        raise _Timeout()
+    try:
+        old = signal.signal(signal.SIGALRM, handler)
+    except ValueError:        # not in the main thread
+        return fn()
+    signal.alarm(seconds)
+    try:
+        return fn()
+    finally:
+        signal.alarm(0)
+        signal.signal(signal.SIGALRM, old)
+
+
+def effect_outcome(run, ns):
+    try:
+        _with_alarm(run)
+        st = ['ok']
+    except RecursionError:
+        raise
+    except Exception as e:  # noqa
+        name = type(e).__name__
+        # an undefined name: NameError for Python, UndefinedError for the (strict) template lookup
+        st = ['err', 'NameError' if name in ('UndefinedError', 'UnboundLocalError') else name]
+    return [st, _canon_ns(ns)]
+
+
+def oracle_effect(case):
+    """executing the code block has exactly the effect of executing the original code: same final
+    namespace (or same exception and namespace at that point) as exec() of the source with the context
+    data as module namespace"""
+    import builtins
+    from genshi.template.eval import Suite
+    from harness.props import c03
+    src = case['src']
+    try:
+        code = compile(src, '<reference>', 'exec')
+    except (SyntaxError, ValueError, RecursionError, MemoryError):
+        return None
+    try:
+        suite = Suite(src)
+    except Exception:  # noqa: rejected at construction
+        return None
+    g = c03.build_data(case['data'])
+    g['__builtins__'] = builtins
+    try:
+        want = effect_outcome(lambda: exec(code, g), g)
+    except (c03.TooBig, RecursionError, _Timeout):
+        return None
+    if want[0] == ['err', 'NameError'] and 'cannot access local variable' in _last_error_text(code, case):
+        # UnboundLocalError: CPython 3.12.1 raises it spuriously for a global name that is also the loop
+        # variable of an (inlined) comprehension elsewhere in the same function; such cases are not judged
+        return None
+    d = c03.build_data(case['data'])
+    try:
+        got = effect_outcome(lambda: suite.execute(d), d)
+    except (RecursionError, _Timeout):
+        return None
+    if got != want:
+        return {'case': case, 'what': 'Suite(src).execute(data) has the effect of exec(src) on the context data',
+                'expected': want, 'observed': got}
+    return None
+
+
+def effect_kind(case):
+    import builtins
+    from harness.props import c03
+    from genshi.template.eval import Suite
+    try:
+        code = compile(case['src'], '<reference>', 'exec')
+        Suite(case['src'])
+    except Exception:  # noqa
+        return 'rejected'
+    g = c03.build_data(case['data'])
+    g['__builtins__'] = builtins
+    try:
+        return effect_outcome(lambda: exec(code, g), g)[0][-1]
+    except (c03.TooBig, RecursionError, _Timeout):
+        return 'skipped'
+
+
+def _last_error_text(code, case):
+    import builtins
+    from harness.props import c03
+    g = c03.build_data(case['data'])
+    g['__builtins__'] = builtins
+    try:
+        exec(code, g)
+    except Exception as e:  # noqa
+        return str(e)
+    return ''
 
 
 def outcome_kind(case):
@@ -183,6 +303,22 @@ HAND = [
     ('exec', 'try:\n  pass\nexcept E as e:\n  pass'), ('exec', 'from . import x'), ('exec', 'with a as (b, c): pass'),
     ('exec', 'if a: pass\nelif b: pass\nelse: pass'), ('exec', 'def f(): return (yield)'), ('exec', 'x: int = 1'),
     ('exec', 'for a, b in c: pass\nelse: pass'), ('exec', 'try:\n  pass\nfinally:\n  pass'), ('exec', 'raise E from c'),
+]
+
+
+HAND_EFFECT = [
+    ('x = 1\ndef f(): return x\nx = 2\nr = f()', {}),
+    ('def f(n):\n    if n <= 0: return 0\n    return n + f(n - 1)\nr = f(3)', {}),
+    ('try:\n    r = 1 // 0\nexcept ZeroDivisionError:\n    r = -1\nfinally:\n    s = 2', {}),
+    ('import math\nfrom math import floor as fl\nr = fl(math.pi)', {}),
+    ('def f():\n    k = 3\n    return [i * k for i in range(3)]\nr = f()', {'k': 2}),
+    ('def f(a, *b, c=1, **d): return (a, b, c, d)\nr = f(1, 2, c=3, e=4)', {}),
+    ('n = 0\nwhile n < 3:\n    n += 1\nelse:\n    r = n', {}),
+    ('lam = lambda q: q + a\nr = lam(1)', {'a': 1}),
+    ('def outer():\n    v = 1\n    def inner(): return v + 1\n    return inner()\nr = outer()', {}),
+    ('class K:\n    a = 1\n    b = a + 1\n    def m(self): return self.b\nr = K().m()', {}),
+    ('def f(p, q=a):\n    t = p + q\n    return t\nr = f(1)', {'a': 2}),
+    ('@dec\ndef f(): return 1\nr = f', {'dec': {'$fn': 'ident'}}),
 ]
 
 
@@ -391,8 +527,34 @@ def shard(arg):
     cases = gen_cases(rng, n_expr, n_stmt)
     if idx == 0:
         cases = [{'mode': m, 'src': s, 'via': v} for m, s in HAND for v in ('raw', 'api')] + cases
+        for s_, d_ in HAND_EFFECT:
+            f = oracle_effect({'mode': 'exec', 'via': 'effect', 'src': s_, 'data': d_})
+            res.evaluations += 1
+            if f:
+                res.failures.append(f)
     run_cases(cases, res, 'gen')
     res.samples = cases[:2]
+    # execution effect of generated closed programs
+    from harness.props import c03
+    pg = G.ProgGen(rng)
+    n_eff = max(1, n_stmt // 2)
+    for _ in range(n_eff):
+        src = G.unparse_ok(pg.program(), 'exec')
+        if src is None:
+            continue
+        ec = {'mode': 'exec', 'via': 'effect', 'src': src, 'data': c03.full_data(rng)}
+        res.evaluations += 1
+        try:
+            f = oracle_effect(ec)
+            res.count('effect:' + effect_kind(ec))
+        except RecursionError:
+            res.count('effect:recursion-limit')
+            continue
+        k = feature_key(ec)
+        if k:
+            res.nontrivial.add('effect:' + k)
+        if f:
+            res.failures.append(f)
     corpus = []
     for f in files:
         for seg in G.read_statements(f):
